@@ -17,3 +17,16 @@ CFG = dict(
      timeout_quick=300, timeout_thorough=2400)
 CFG["rule"] += ' Added after independently written breaking changes: Bulk sizes: entry counts around powers of two (to 1025; thorough to 8193) with every split of short/long TTLs through Cleanup, Delete and Reset.'
 CFG["rule"] += " TestStopDuringPeriodicPass: Stop called at the instant of a tick over 50k-300k expired entries; at Stop's return no goroutine started by the cache may still be inside Cleanup (census by creator and frame; non-trivial: Stop was called with a pass in flight)."
+CFG["rule"] += (" Option values at and beyond the documented boundaries (the model follows the documentation: MaxTTL caps only 'if greater than 0'): "
+                "MaxTTL in {MinInt64, -3600, -2, -1, 0, 1, 2, 5, around the number of seconds a Duration holds, MaxInt64}, CleanupInterval in {MinInt64, negative, 0 = default, "
+                "250 ms .. 7 s, 1 h, MaxInt64}, InitialSize in {MinInt32, negative, 0, 1, 8, 4096} drawn for every generated history, and TestOptionBoundaries: the complete grid "
+                "of those values x ttl {1, 2, 3, 10, around the Duration limit, MaxInt64} x advance to 1 ns before / at / 1 ns after the expiry, with Cleanup at each stop (classes option.*). "
+                "The cache stays usable after Stop (only the background cleaner ends): every second history has a Stop at a drawn position and goes on with Set/Get/Delete/Cleanup/Reset/"
+                "advances/groups under the same reference map; a group may contain a Stop (classes operations-after-Stop, group-after-Stop, Stop-inside-concurrent-group); "
+                "TestBulkConcurrent runs a third of its cases on a stopped cache. "
+                "TestSameKeyRace (real threads in a bubble, virtual clock standing still during the race): 64..4000 keys in every state (1 s entry still live / exactly expired / expired "
+                "and not cleaned / cleaned, long entry, absent), Stop never / before / after the ageing, 1..3 setters walking over their own keys (Set once or twice, then Get) while 1..4 "
+                "getters read exactly the key a setter has announced it is writing (plus untouched bystanders), optionally a goroutine calling Cleanup all the time. Oracle without "
+                "timing: a Get by the goroutine whose Set of that key has returned hits with that value (nobody deletes or resets, no TTL passes); the same for all keys after the join; "
+                "a getter's hit is a value Set in the race or the unexpired old one; the only accepted loss is the documented cleanup/refresh race (concurrent Cleanup and an expired old entry); "
+                "afterwards 1 ns before / at the new expiry. Non-trivial: at least one key with an expired old entry was Set under reading.")
